@@ -382,11 +382,9 @@ def check(ix, rep):
     # a conversion that remembers its answers forgets nothing the answers depend on
     from sa.rules import memo
     ncache = 0
-    for (mod_, cls_) in (('rtamt.semantics.discrete_time_interpreter', 'DiscreteTimeInterpreter'), ('rtamt.semantics.dense_time_interpreter', 'DenseTimeInterpreter')):
-        k_ = ix.find_class(mod_, cls_)
-        f_ = k_.methods.get('time_unit_transformer')
-        if f_ is not None:
-            ncache += memo.check_method(ix, rep, k_, f_, 'converter')
+    ncache += memo.check_converters(ix, rep)
+    from sa.rules import round11 as _r11lazy
+    rep.floor('sites at which a specification hands the ast to an interpreter', _r11lazy.check_set_ast_lazy(ix, rep), 3)
     # the configured period survives reset(): reset() writes none of the attributes set_sampling_period() writes
     from sa.rules import units as _ucfg
     rep.floor('online reset chains checked against the sampling settings', _ucfg.check_reset_keeps_settings(ix, rep), 1)
